@@ -240,7 +240,52 @@ class Gen:
         return L
 
 
+def cycles_scenario(rng, method):
+    """(C18) several init-use-deinit cycles: every round registers things, runs the loop until a guard timer quits it,
+    unregisters everything, lets the loop flush, and tears the loop down; ledger lines are compared across rounds"""
+    g = Gen(rng, "lifecycle", method, faults=False)
+    L = []
+    if method is not None:
+        L.append(f"exclude {method}")
+    L.append(f"cfg waitlimit=60 cblimit=400" + (" notimerfd" if rng.random() < 0.2 else "") + (" noeventfd2" if rng.random() < 0.2 else ""))
+    g.nf, g.nt, g.nk, g.ne, g.nr = rng.choice([1, 2, 3]), rng.choice([1, 2, 140 if rng.random() < 0.3 else 3]), rng.choice([0, 1, 2]), rng.choice([0, 1, 2]), rng.choice([0, 1])
+    nt_real = min(g.nt, 60)
+    for i in range(g.nf): L.append(f"obj fd f{i} sock")
+    for i in range(nt_real): L.append(f"obj timer t{i}")
+    L.append("obj timer t63")
+    for i in range(1, g.nk + 1): L.append(f"obj task k{i}")
+    for i in range(g.ne): L.append(f"obj event e{i}")
+    for i in range(1, g.nr + 1): L.append(f"obj raw r{i}")
+    g.nt = nt_real
+    L.append("on t63 * : quit")
+    for i in range(g.nf):
+        L.append(f"on f{i}.in * : rd f{i}")
+        L.append(f"on f{i}.out * : ?setout f{i} 0")
+    for w in range(0, 12):
+        if rng.random() < 0.4 and g.nf:
+            L.append(f"at {w} : wr f{rng.randrange(g.nf)} 2")
+    cleanup = ([f"?unreg f{i}" for i in range(g.nf)] + [f"?tunreg t{i}" for i in range(g.nt)] + ["?tunreg t63"] +
+               [f"?kunreg k{i}" for i in range(1, g.nk + 1)] + [f"?evunreg e{i}" for i in range(g.ne)] +
+               [f"?rawunreg r{i}" for i in range(1, g.nr + 1)])
+    for rnd in range(rng.choice([3, 4, 5])):
+        acts = [f"trel t63 {rng.choice([20000000, 60000000])}"]
+        for i in range(g.nf): acts.append(f"?reg f{i} {rng.choice(['100', '110', '111', '010'])}")
+        for i in range(g.nt): acts.append(f"?trel t{i} {rng.choice([1000000, 5000000, 900000000, 3000000000])}")
+        for i in range(1, g.nk + 1): acts.append(f"?kreg k{i}")
+        for i in range(g.ne): acts += [f"?evreg e{i}", f"evpost e{i}"]
+        for i in range(1, g.nr + 1): acts += [f"?rawreg r{i}", f"rawpost r{i}"]
+        L.append("do " + " ; ".join(acts))
+        L.append("main")
+        L.append("do " + " ; ".join(cleanup))
+        L.append("main")
+        L.append("cycle")
+    return L
+
+
 def scenario(seed, family="mix", method="rotate", **kw):
+    if family == "cycles":
+        rng = random.Random(seed * 1000003 + 77)
+        return cycles_scenario(rng, METHODS[seed % 4] if method == "rotate" else method)
     rng = random.Random(seed * 1000003 + sorted(WEIGHTS).index(family))
     m = METHODS[seed % 4] if method == "rotate" else method
     return Gen(rng, family, m, **kw).build()
